@@ -363,6 +363,19 @@ def run(tier: str) -> int:
             rep.add_violation("out-of-order:long-backlog", "a publisher's messages are not received in publication order after a long backlog",
                               {"published": n_msgs * n_pub, "publishers": n_pub})
         del t, got
+    # ---- what a message carries does not matter: empty / falsy payloads and contexts are messages like any other ---------------
+    payloads = [("first", {"k": 1}), (None, None), (None, {}), (0, None), ("", {}), ([], None), (False, {}), ((), None), (0.0, {}), ("last", None)]
+    for pattern in ("ctl.done", "ctl.*"):
+        t = M.InMemorySemantivaTransport()
+        for data, ctx in payloads:
+            t.publish("ctl.done", data, ctx)
+        got = [(m.data, m.context) for m in t.subscribe(pattern)]
+        again = [(m.data, m.context) for m in t.subscribe("*")]
+        stats["falsy_payload_messages"] = stats.get("falsy_payload_messages", 0) + len(payloads)
+        if [repr(x) for x in got] != [repr(x) for x in payloads]:
+            rep.add_violation("message-lost:falsy-payload", f"{len(payloads)} messages with empty / falsy data and context were published to one channel; "
+                              f"the subscription {pattern!r} yielded {len(got)} of them (a second subscription found {len(again)} more)",
+                              {"published": [repr(x) for x in payloads], "received": [repr(x) for x in got], "left_behind": [repr(x) for x in again]})
     for name, limit in per.items():
         sc = SCENARIOS[name]
         n = 0
